@@ -31,15 +31,16 @@ Fixpoint plain_args (args : list rval) (ps : list string) : bool :=
   end.
 
 (* [SimpleB inl inr st]: st is covered; inl = it may contain a break that belongs to an enclosing loop;
-   inr = it may contain a return (it lies in the body of a routine).  A call is covered when the body of the routine it
-   names is: the derivation is finite, so the routines reached do not call themselves. *)
+   inr = it may contain a return (it lies in the body of a routine).  A call is covered when it names a routine of the table
+   and its arguments are ordinary values; [bodies_ok] below says that the body of every routine of the table is covered, so
+   routines may call each other and themselves. *)
 Inductive SimpleB : bool -> bool -> stmt -> Prop :=
 | B_simple inl inr st : Simple mt st -> SimpleB inl inr st
 | B_break inr : SimpleB true inr SBreak
 | B_return inl v : plain_rval mt v = true -> SimpleB inl true (SReturn (Some v))
 | B_return0 inl : SimpleB inl true (SReturn None)
 | B_call inl inr f args b d : builtin_params f builtin_table = None -> find_rdef rt f = Some d ->
-    plain_args args (rd_params d) = true -> SimpleB false true (rd_body d) -> SimpleB inl inr (SCall f args b)
+    plain_args args (rd_params d) = true -> SimpleB inl inr (SCall f args b)
 | B_if inl inr c a : plain_rval mt c = true -> SimpleB inl inr a -> SimpleB inl inr (SIf c a None)
 | B_ifelse inl inr c a b : plain_rval mt c = true -> SimpleB inl inr a -> SimpleB inl inr b -> SimpleB inl inr (SIf c a (Some b))
 | B_block inl inr l : SimpleBL inl inr l -> SimpleB inl inr (SBlock l)
@@ -54,6 +55,8 @@ with SimpleBL : bool -> bool -> list stmt -> Prop :=
 Scheme SimpleB_ind2 := Induction for SimpleB Sort Prop
 with SimpleBL_ind2 := Induction for SimpleBL Sort Prop.
 Combined Scheme SimpleB_mutind from SimpleB_ind2, SimpleBL_ind2.
+
+Definition bodies_ok : Prop := forall f d, find_rdef rt f = Some d -> SimpleB false true (rd_body d).
 
 (* ---- the code, for any distance to the end of the enclosing loop ---- *)
 Definition blk (after : option Z) (l : list stmt) : program := c_stmt rt mt false after (SBlock l).
@@ -138,7 +141,7 @@ Proof.
   - intros inr after. rewrite c_break. destruct after; reflexivity.
   - intros inl v Hv after. rewrite c_return, forallb_app, (c_rval_no_routine rt mt v (DReg R_RESULT) Hv (plain_ok_result mt v Hv)). reflexivity.
   - intros inl after. reflexivity.
-  - intros inl inr f args b d Hb Hf Ha _ _ after. rewrite (c_callB after f args b d Hb Hf), !forallb_app, (c_args_no_routine args _ Ha). reflexivity.
+  - intros inl inr f args b d Hb Hf Ha after. rewrite (c_callB after f args b d Hb Hf), !forallb_app, (c_args_no_routine args _ Ha). reflexivity.
   - intros inl inr c a Hc _ IHa after. rewrite c_if1_after, !forallb_app, (IHa after), (c_rval_no_routine rt mt c (DReg R_RESULT) Hc (plain_ok_result mt c Hc)). reflexivity.
   - intros inl inr c a b Hc _ IHa _ IHb after. rewrite c_if2_after, !forallb_app, (IHa _), (IHb after), (c_rval_no_routine rt mt c (DReg R_RESULT) Hc (plain_ok_result mt c Hc)). reflexivity.
   - intros inl inr l _ IH after. exact (IH after).
@@ -323,31 +326,32 @@ Proof.
   rewrite E, Hb, Hf. reflexivity.
 Qed.
 
-Theorem simpleB_simulation :
+Theorem simpleB_simulation_upto : bodies_ok -> forall fuel0 : nat,
   (forall inl inr st, SimpleB inl inr st ->
-     forall after im ss s sig ss' fuel, routines_loaded im -> in_loop_ok inl after -> in_ret_ok inr (m_frames s) ->
+     forall after im ss s sig ss' fuel, (fuel <= fuel0)%nat -> routines_loaded im -> in_loop_ok inl after -> in_ret_ok inr (m_frames s) ->
      depth_ok (m_frames s) (zlength (m_stack s)) -> sim ss s -> code_at im (m_pc s) (c_stmt rt mt false after st) ->
      Sem.exec rt mt fuel false ss st = ROk sig ss' -> outcome after im ss s sig ss' (c_stmt rt mt false after st)) /\
   (forall inl inr l, SimpleBL inl inr l ->
-     forall after im ss s sig ss' fuel, routines_loaded im -> in_loop_ok inl after -> in_ret_ok inr (m_frames s) ->
+     forall after im ss s sig ss' fuel, (fuel <= fuel0)%nat -> routines_loaded im -> in_loop_ok inl after -> in_ret_ok inr (m_frames s) ->
      depth_ok (m_frames s) (zlength (m_stack s)) -> sim ss s -> code_at im (m_pc s) (c_stmt rt mt false after (SBlock l)) ->
      exec_seq rt mt fuel false ss l = ROk sig ss' -> outcome after im ss s sig ss' (c_stmt rt mt false after (SBlock l))).
 Proof.
+  intros Hbodies fuel0. induction fuel0 as [fuel0 IHfuel] using (well_founded_induction lt_wf).
   apply SimpleB_mutind.
   - (* a statement without break: Simulation2 *)
-    intros inl inr st Hst after im ss s sig ss' fuel _ _ _ _ Hsim Hc He.
+    intros inl inr st Hst after im ss s sig ss' fuel Hle _ _ _ _ Hsim Hc He.
     rewrite (proj1 (simple_after rt mt) st Hst after) in *.
     destruct (proj1 (simple_simulation rt mt) st Hst im ss s sig ss' fuel Hsim Hc He) as [Hsig Hsimu].
     left. split; [exact Hsig|exact Hsimu].
   - (* break: the jump to the END_LOOP of the enclosing loop *)
-    intros inr after im ss s sig ss' fuel _ Hin _ _ Hsim Hc He.
+    intros inr after im ss s sig ss' fuel Hle _ Hin _ _ Hsim Hc He.
     destruct fuel as [|fuel]; [discriminate|]. rewrite exec_break in He. injection He as Hsig Hss. subst ss'.
     destruct (Hin eq_refl) as [a Ha]. subst after. rewrite c_break in *. cbn [code_at] in Hc. destruct Hc as [Hf _].
     right. left. split; [auto|]. exists a. split; [reflexivity|].
     exists 1%nat, (with_pc s (m_pc s + (a + 1))), []. split; [exact (jump_always im s (a + 1) Hf)|].
     split; [apply sim_with_pc; exact Hsim|]. split; [cbn [with_pc m_pc]; rewrite zlength1; lia|]. split; [reflexivity|rewrite app_nil_r; reflexivity].
   - (* return v: the value goes to RESULT, RETURN leaves the routine *)
-    intros inl v Hv after im ss s sig ss' fuel _ _ Hir Hd Hsim Hc He.
+    intros inl v Hv after im ss s sig ss' fuel Hle _ _ Hir Hd Hsim Hc He.
     destruct fuel as [|fuel]; [discriminate|]. rewrite exec_return in He. rewrite c_return in *.
     destruct (eval_rval rt mt fuel false ss v) as [x sa|e sa|sa] eqn:Ev; cbn [sbind] in He; try discriminate.
     injection He as Hsig Hss. subst sig ss'.
@@ -365,7 +369,7 @@ Proof.
     split; [destruct Hs1 as [Hr1 Hf1 Hg1 Hv1 Hst1 Hw1 Hu1]; repeat split; assumption|].
     split; [reflexivity|]. split; [reflexivity|]. split; [reflexivity|]. rewrite app_nil_r. reflexivity.
   - (* return without a value *)
-    intros inl after im ss s sig ss' fuel _ _ Hir Hd Hsim Hc He.
+    intros inl after im ss s sig ss' fuel Hle _ _ Hir Hd Hsim Hc He.
     destruct fuel as [|fuel]; [discriminate|]. rewrite exec_return0 in He. rewrite c_return0 in *.
     injection He as Hsig Hss. subst sig ss'.
     cbn [code_at] in Hc. destruct Hc as [Hf1 [Hf2 _]].
@@ -383,7 +387,7 @@ Proof.
     split; [destruct Hs1 as [Hr1 Hf1' Hg1 Hv1 Hst1 Hw1 Hu1]; repeat split; assumption|].
     split; [reflexivity|]. split; [reflexivity|]. split; [reflexivity|]. rewrite app_nil_r. reflexivity.
   - (* call of a user routine *)
-    intros inl inr f args b d Hb Hf Hpl Hbody IHbody after im ss s sig ss' fuel Hload _ _ Hd Hsim Hc He.
+    intros inl inr f args b d Hb Hf Hpl after im ss s sig ss' fuel Hle Hload _ _ Hd Hsim Hc He.
     destruct fuel as [|[|fuel]]; try discriminate. rewrite exec_call, (call_user fuel ss f args d Hb Hf) in He.
     rewrite (c_callB after f args b d Hb Hf) in *.
     set (ps := rd_params d) in *. set (CA := c_args ps args) in *. set (kA := zlength CA) in *.
@@ -428,7 +432,7 @@ Proof.
     assert (Hss' : ss' = sfin /\ sig = SigNormal) by (destruct sgb; injection He as H1 H2; split; congruence).
     destruct Hss' as [-> ->].
     left. split; [reflexivity|]. rewrite Hlen.
-    destruct (IHbody None im ssb s3 sgb sb fuel Hload Hin3 Hir3 Hd3 Hs3 Hbcode3 Eb)
+    destruct (proj1 (IHfuel fuel ltac:(lia)) false true (rd_body d) (Hbodies f d Hf) None im ssb s3 sgb sb fuel (le_n _) Hload Hin3 Hir3 Hd3 Hs3 Hbcode3 Eb)
       as [[Hsgb (n4 & s4 & e4 & E4 & Hs4 & Hpc4 & Hst4 & Ht4)]|[[Hsgb (a' & Ha' & _)]|[v [Hsgb (ret' & F' & Hct' & n4 & s4 & e4 & E4 & Hr4 & Hpc4 & Hfr4 & Hst4 & Ht4)]]]].
     + (* the body runs into END f: back to the END_CTX of the call *)
       destruct (fr_eq_facts s4 s3 Hst4) as [Hsk4 [Hct4 Hdp4]].
@@ -461,7 +465,7 @@ Proof.
       split; [unfold fr; rewrite Hfr4, Hst4, Hstk; reflexivity|].
       cbn [app]. exact Ht4.
   - (* if without else *)
-    intros inl inr c a Hc Ha IHa after im ss s sig ss' fuel Hload Hin Hir Hd Hsim Hcode He.
+    intros inl inr c a Hc Ha IHa after im ss s sig ss' fuel Hle Hload Hin Hir Hd Hsim Hcode He.
     destruct fuel as [|fuel]; [discriminate|]. rewrite exec_if in He. rewrite c_if1_after in *.
     destruct (eval_rval rt mt fuel false ss c) as [x sa|e sa|sa] eqn:Ev; cbn [sbind] in He; try discriminate.
     apply code_at_app in Hcode. destruct Hcode as [Hcc Hrest]. apply code_at_app in Hrest. destruct Hrest as [Hj Hbody]. cbn [code_at] in Hj. destruct Hj as [Hfj _].
@@ -479,7 +483,7 @@ Proof.
     + set (s2 := with_pc s1 (m_pc s1 + 1)) in *.
       assert (Hb2 : code_at im (m_pc s2) body).
       { unfold s2. cbn [with_pc m_pc]. unfold s1. cbn [put_vm m_pc]. rewrite zlength1 in Hbody. exact Hbody. }
-      pose proof (IHa after im ss s2 sig ss' fuel Hload Hin Hir Hd (sim_with_pc ss s1 _ Hs1) Hb2 He) as Ho.
+      pose proof (IHa after im ss s2 sig ss' fuel ltac:(lia) Hload Hin Hir Hd (sim_with_pc ss s1 _ Hs1) Hb2 He) as Ho.
       apply (outcome_after_steps after im ss s ss s2 (n + 1)%nat ([] ++ []) sig ss' body); [eapply esteps_app; eassumption|reflexivity|rewrite app_nil_r; reflexivity| |exact Ho].
       rewrite Hlen. unfold s2, s1. cbn [with_pc put_vm m_pc]. lia.
     + injection He as Hsig He. subst ss'. left. split; [auto|].
@@ -487,7 +491,7 @@ Proof.
       split; [eapply esteps_app; eassumption|]. split; [apply sim_with_pc; exact Hs1|].
       split; [rewrite Hlen; unfold s1; cbn [with_pc put_vm m_pc]; lia|]. split; [reflexivity|rewrite app_nil_r; reflexivity].
   - (* if with else *)
-    intros inl inr c a b Hc Ha IHa Hb IHb after im ss s sig ss' fuel Hload Hin Hir Hd Hsim Hcode He.
+    intros inl inr c a b Hc Ha IHa Hb IHb after im ss s sig ss' fuel Hle Hload Hin Hir Hd Hsim Hcode He.
     destruct fuel as [|fuel]; [discriminate|]. rewrite exec_if in He. rewrite c_if2_after in *.
     pose proof (proj1 simpleB_no_routine inl inr b Hb after) as Hnrb. rewrite (len_no_routine _ Hnrb) in *.
     set (tb := c_stmt rt mt false after b) in *.
@@ -513,7 +517,7 @@ Proof.
       set (s2 := with_pc s1 (m_pc s1 + 1)) in *.
       assert (Hb2 : code_at im (m_pc s2) ta) by (unfold s2; cbn [with_pc m_pc]; rewrite Hk; exact Hthen).
       assert (E2 : esteps (n + 1) im s = Some (s2, [] ++ [])) by (eapply esteps_app; eassumption).
-      destruct (IHa after_a im ss s2 sig ss' fuel Hload (in_loop_ok_map inl after _ Hin) Hir Hd (sim_with_pc ss s1 _ Hs1) Hb2 He) as [[Hsig Hto]|[[Hsig (a' & Ha' & Hto)]|[v [Hsig Hret]]]].
+      destruct (IHa after_a im ss s2 sig ss' fuel ltac:(lia) Hload (in_loop_ok_map inl after _ Hin) Hir Hd (sim_with_pc ss s1 _ Hs1) Hb2 He) as [[Hsig Hto]|[[Hsig (a' & Ha' & Hto)]|[v [Hsig Hret]]]].
       * left. split; [exact Hsig|]. rewrite Hlen.
         apply (sim_to_after_steps im ss s ss s2 (n + 1)%nat ([] ++ []) ss'); [exact E2|reflexivity|rewrite app_nil_r; reflexivity|].
         replace (m_pc s + (k + 1 + zlength ta + 1 + zlength tb)) with (m_pc s2 + zlength ta + (zlength tb + 1)) by (unfold s2; cbn [with_pc m_pc]; rewrite Hk; lia).
@@ -529,14 +533,14 @@ Proof.
       set (s2 := with_pc s1 (m_pc s1 + (zlength ta + 2))) in *.
       assert (Hb2 : code_at im (m_pc s2) tb).
       { unfold s2. cbn [with_pc m_pc]. rewrite Hk. replace (m_pc s + k + (zlength ta + 2)) with (m_pc s + k + 1 + zlength ta + 1) by lia. exact Helse. }
-      pose proof (IHb after im ss s2 sig ss' fuel Hload Hin Hir Hd (sim_with_pc ss s1 _ Hs1) Hb2 He) as Ho.
+      pose proof (IHb after im ss s2 sig ss' fuel ltac:(lia) Hload Hin Hir Hd (sim_with_pc ss s1 _ Hs1) Hb2 He) as Ho.
       apply (outcome_after_steps after im ss s ss s2 (n + 1)%nat ([] ++ []) sig ss' tb); [eapply esteps_app; eassumption|reflexivity|rewrite app_nil_r; reflexivity| |exact Ho].
       rewrite Hlen. unfold s2. cbn [with_pc m_pc]. rewrite Hk. lia.
   - (* block *)
-    intros inl inr l Hl IH after im ss s sig ss' fuel Hload Hin Hir Hd Hsim Hc He. destruct fuel as [|fuel]; [discriminate|].
-    rewrite exec_block in He. exact (IH after im ss s sig ss' fuel Hload Hin Hir Hd Hsim Hc He).
+    intros inl inr l Hl IH after im ss s sig ss' fuel Hle Hload Hin Hir Hd Hsim Hc He. destruct fuel as [|fuel]; [discriminate|].
+    rewrite exec_block in He. exact (IH after im ss s sig ss' fuel ltac:(lia) Hload Hin Hir Hd Hsim Hc He).
   - (* while loop *)
-    intros inl inr c a Hc Ha IHa after im ss s sig ss' fuel Hload _ Hir Hd Hsim Hcode He.
+    intros inl inr c a Hc Ha IHa after im ss s sig ss' fuel Hle Hload _ Hir Hd Hsim Hcode He.
     destruct fuel as [|[|fuel]]; try discriminate. rewrite exec_while in He.
     rewrite c_loop_after, c_whileB, app_nil_r in *.
     pose proof (proj1 simpleB_no_routine true inr a Ha (Some 1)) as Hnrb.
@@ -557,12 +561,12 @@ Proof.
     assert (Hs1 : sim ss s1) by (destruct Hsim; constructor; cbn; assumption).
     assert (Hin1 : in_loop_ok true (Some 1)) by (intros _; exists 1; reflexivity).
     assert (Hiter : forall f ss1 sx sg ssx lv r,
-              sim ss1 sx -> m_pc sx = P0 + 1 -> m_frames sx = FLoop lv d :: r -> erase r = erase (m_frames s) -> m_stack sx = m_stack s ->
+              (f <= fuel0)%nat -> sim ss1 sx -> m_pc sx = P0 + 1 -> m_frames sx = FLoop lv d :: r -> erase r = erase (m_frames s) -> m_stack sx = m_stack s ->
               iterate rt mt f false ss1 (Some c) None None None a = ROk sg ssx ->
               (sg = SigNormal /\ exists n sy evs, esteps n im sx = Some (sy, evs) /\ sim ssx sy /\ m_pc sy = P0 + (kT + kB + 4) /\
                                            (m_stack sy, fr sy) = (m_stack s, fr s) /\ rev (s_trace ssx) = rev (s_trace ss1) ++ evs) \/
               (exists v, sg = SigReturn v /\ returned im ss1 sx ssx)).
-    { induction f as [|f IHf]; intros ss1 sx sg ssx lv r Hsx Hpcx Hfrx Herx Hstx Hit; [discriminate|].
+    { induction f as [|f IHf]; intros ss1 sx sg ssx lv r Hlef Hsx Hpcx Hfrx Herx Hstx Hit; [discriminate|].
       assert (Hctx : call_tail (m_frames sx) = call_tail (m_frames s)) by (rewrite Hfrx; cbn [call_tail]; apply call_tail_fr_eq; exact Herx).
       assert (Hdx : depth_ok (m_frames sx) (zlength (m_stack sx))).
       { rewrite Hfrx, Hstx. cbn [depth_ok]. split; [reflexivity|]. apply (depth_ok_fr_eq (m_frames s) r); [symmetry; exact Herx|exact Hd]. }
@@ -585,7 +589,7 @@ Proof.
         assert (Hst3 : m_stack s3 = m_stack s /\ m_frames s3 = FLoop lv d :: r) by (split; assumption).
         destruct Hst3 as [Hsk3 Hfk3].
         assert (E23 : esteps (n + 1) im sx = Some (s3, [] ++ [])) by (eapply esteps_app; eassumption).
-        destruct (IHa (Some 1) im ss1 s3 sgb sb f Hload Hin1 Hirx Hdx (sim_with_pc ss1 s2 _ Hs2) HcB3 Eb)
+        destruct (IHa (Some 1) im ss1 s3 sgb sb f ltac:(lia) Hload Hin1 Hirx Hdx (sim_with_pc ss1 s2 _ Hs2) HcB3 Eb)
           as [[Hsgb (n3 & s4 & e4 & E4 & Hs4 & Hpc4 & Hst4 & Ht4)]|[[Hsgb (a' & Ha' & (n3 & s4 & e4 & E4 & Hs4 & Hpc4 & Hst4 & Ht4))]|[v [Hsgb Hret]]]]; subst sgb.
         + (* the body ends normally: back to the test *)
           assert (Hfjb4 : fetch im (m_pc s4) = Some (jump JC_ALWAYS (- (kT + 1 + kB)))).
@@ -594,7 +598,7 @@ Proof.
           set (s5 := with_pc s4 (m_pc s4 + - (kT + 1 + kB))) in *.
           destruct (loop_frame_kept s4 s3 s lv d r Hst4 Hsk3 Hfk3 Herx) as [Hsk4 (r4 & Hfk4 & Her4)].
           assert (E25 : esteps (n + (1 + (n3 + 1))) im sx = Some (s5, [] ++ ([] ++ (e4 ++ [])))) by (eapply esteps_app; [exact Hn|eapply esteps_app; [exact Ej|eapply esteps_app; [exact E4|exact Ejb]]]).
-          destruct (IHf sb s5 sg ssx lv r4 (sim_with_pc sb s4 _ Hs4)) as [[Hsg (n6 & s6 & e6 & E6 & Hs6 & Hpc6 & Hst6 & Ht6)]|[v [Hsg Hret]]].
+          destruct (IHf sb s5 sg ssx lv r4 ltac:(lia) (sim_with_pc sb s4 _ Hs4)) as [[Hsg (n6 & s6 & e6 & E6 & Hs6 & Hpc6 & Hst6 & Ht6)]|[v [Hsg Hret]]].
           { unfold s5. cbn [with_pc m_pc]. rewrite Hpc4. unfold s3. cbn [with_pc m_pc]. rewrite Hpc2. fold B. fold kB. lia. }
           { exact Hfk4. }
           { exact Her4. }
@@ -629,7 +633,7 @@ Proof.
         split; [eapply esteps_app; [exact Hn|eapply esteps_app; [exact Ej|exact E4]]|].
         split; [exact Hs4|]. split; [rewrite Hpc4; unfold s3; cbn [with_pc m_pc]; rewrite Hpc2; lia|].
         split; [exact Hst4|]. rewrite app_nil_r. reflexivity. }
-    destruct (Hiter fuel ss s1 sig ss' [] (m_frames s) Hs1 eq_refl eq_refl eq_refl eq_refl He) as [[Hsig (n & sy & evs & En & Hsy & Hpcy & Hsty & Hty)]|[v [Hsig Hret]]].
+    destruct (Hiter fuel ss s1 sig ss' [] (m_frames s) ltac:(lia) Hs1 eq_refl eq_refl eq_refl eq_refl He) as [[Hsig (n & sy & evs & En & Hsy & Hpcy & Hsty & Hty)]|[v [Hsig Hret]]].
     + left. split; [exact Hsig|]. exists (1 + n)%nat, sy, ([] ++ evs).
       split; [eapply esteps_app; [exact E1|exact En]|]. split; [exact Hsy|].
       split; [rewrite Hpcy; unfold kT, kB, zlength; rewrite !app_length; cbn [length]; rewrite !Nat2Z.inj_add; lia|].
@@ -637,7 +641,7 @@ Proof.
     + right. right. exists v. split; [exact Hsig|].
       exact (returned_rebase im ss s ss s1 1%nat [] ss' E1 eq_refl eq_refl (eq_sym (app_nil_r _)) Hret).
   - (* counted loop *)
-    intros inl inr cn a Hn Ha IHa after im ss s sig ss' fuel Hload _ Hir Hd Hsim Hcode He.
+    intros inl inr cn a Hn Ha IHa after im ss s sig ss' fuel Hle Hload _ Hir Hd Hsim Hcode He.
     destruct fuel as [|[|fuel]]; try discriminate. rewrite exec_count in He.
     rewrite c_loop_after, c_count in *.
     change (len (counter_post None)) with 4 in *.
@@ -668,12 +672,12 @@ Proof.
     assert (Hs2 : sim ss s2) by (apply sim_with_counter; exact Hs1).
     assert (Hin1 : in_loop_ok true (Some (4 + 1))) by (intros _; exists (4 + 1); reflexivity).
     assert (Hiter : forall f ss1 sx sg ssx lv c0 r,
-              sim ss1 sx -> m_pc sx = P0 + 1 + kN -> m_frames sx = FLoop lv d :: r -> erase r = erase (m_frames s) -> lv_get lv LV_COUNTER = Some c0 -> m_stack sx = m_stack s ->
+              (f <= fuel0)%nat -> sim ss1 sx -> m_pc sx = P0 + 1 + kN -> m_frames sx = FLoop lv d :: r -> erase r = erase (m_frames s) -> lv_get lv LV_COUNTER = Some c0 -> m_stack sx = m_stack s ->
               iterate rt mt f false ss1 None (Some c0) None None a = ROk sg ssx ->
               (sg = SigNormal /\ exists n sy evs, esteps n im sx = Some (sy, evs) /\ sim ssx sy /\ m_pc sy = P0 + (kN + kB + 12) /\
                                            (m_stack sy, fr sy) = (m_stack s, fr s) /\ rev (s_trace ssx) = rev (s_trace ss1) ++ evs) \/
               (exists v, sg = SigReturn v /\ returned im ss1 sx ssx)).
-    { induction f as [|f IHf]; intros ss1 sx sg ssx lv c0 r Hsx Hpcx Hfrx Herx Hlvx Hstx Hit; [discriminate|].
+    { induction f as [|f IHf]; intros ss1 sx sg ssx lv c0 r Hlef Hsx Hpcx Hfrx Herx Hlvx Hstx Hit; [discriminate|].
       assert (Hctx : call_tail (m_frames sx) = call_tail (m_frames s)) by (rewrite Hfrx; cbn [call_tail]; apply call_tail_fr_eq; exact Herx).
       assert (Hdx : depth_ok (m_frames sx) (zlength (m_stack sx))).
       { rewrite Hfrx, Hstx. cbn [depth_ok]. split; [reflexivity|]. apply (depth_ok_fr_eq (m_frames s) r); [symmetry; exact Herx|exact Hd]. }
@@ -695,7 +699,7 @@ Proof.
         assert (Hst4 : m_stack s4 = m_stack s /\ m_frames s4 = FLoop lv d :: r) by (split; assumption).
         destruct Hst4 as [Hsk4 Hfk4].
         assert (E34 : esteps (4 + 1) im sx = Some (s4, [] ++ [])) by (eapply esteps_app; eassumption).
-        destruct (IHa (Some (4 + 1)) im ss1 s4 sgb sb f Hload Hin1 Hirx Hdx (sim_with_pc ss1 s3 _ Hs3) HcB4 Eb)
+        destruct (IHa (Some (4 + 1)) im ss1 s4 sgb sb f ltac:(lia) Hload Hin1 Hirx Hdx (sim_with_pc ss1 s3 _ Hs3) HcB4 Eb)
           as [[Hsgb (n5 & s5 & e5 & E5 & Hs5 & Hpc5 & Hst5 & Ht5)]|[[Hsgb (a' & Ha' & (n5 & s5 & e5 & E5 & Hs5 & Hpc5 & Hst5 & Ht5))]|[v [Hsgb Hret]]]]; subst sgb.
         + (* the body ends normally: count down, back to the test *)
           destruct (sub1 c0) as [c1|e] eqn:Esub; cbn [bind] in Hit; [|discriminate].
@@ -710,7 +714,7 @@ Proof.
           pose proof (jump_always im s6 (- (4 + 1 + (kB + 4))) Hfjb6) as Ejb.
           set (s7 := with_pc s6 (m_pc s6 + - (4 + 1 + (kB + 4)))) in *.
           assert (E37 : esteps (4 + (1 + (n5 + (4 + 1)))) im sx = Some (s7, [] ++ ([] ++ (e5 ++ ([] ++ []))))) by (eapply esteps_app; [exact Et|eapply esteps_app; [exact Ej|eapply esteps_app; [exact E5|eapply esteps_app; [exact E6|exact Ejb]]]]).
-          destruct (IHf sb s7 sg ssx (lv_set lv LV_COUNTER c1) c1 r5 (sim_with_pc sb s6 _ Hs6)) as [[Hsg (n8 & s8 & e8 & E8 & Hs8 & Hpc8 & Hst8 & Ht8)]|[v [Hsg Hret]]].
+          destruct (IHf sb s7 sg ssx (lv_set lv LV_COUNTER c1) c1 r5 ltac:(lia) (sim_with_pc sb s6 _ Hs6)) as [[Hsg (n8 & s8 & e8 & E8 & Hs8 & Hpc8 & Hst8 & Ht8)]|[v [Hsg Hret]]].
           { unfold s7. cbn [with_pc m_pc]. unfold s6. cbn [with_counter m_pc]. rewrite Hpc5'. lia. }
           { unfold s7, s6. cbn [with_pc with_counter m_frames]. rewrite Hfk5. reflexivity. }
           { exact Her5. }
@@ -747,7 +751,7 @@ Proof.
         split; [eapply esteps_app; [exact Et|eapply esteps_app; [exact Ej|exact E5]]|].
         split; [exact Hs5|]. split; [rewrite Hpc5; unfold s4; cbn [with_pc m_pc]; rewrite Hpc3; lia|].
         split; [exact Hst5|]. rewrite app_nil_r. reflexivity. }
-    destruct (Hiter fuel ss s2 sig ss' (lv_set [] LV_COUNTER cnt) cnt (m_frames s) Hs2) as [[Hsig (n & sy & evs & En & Hsy & Hpcy & Hsty & Hty)]|[v [Hsig Hret]]].
+    destruct (Hiter fuel ss s2 sig ss' (lv_set [] LV_COUNTER cnt) cnt (m_frames s) ltac:(lia) Hs2) as [[Hsig (n & sy & evs & En & Hsy & Hpcy & Hsty & Hty)]|[v [Hsig Hret]]].
     { unfold s2, s1. cbn [with_counter advance with_pc with_frames with_vars m_pc]. fold P0. reflexivity. }
     { reflexivity. }
     { reflexivity. }
@@ -762,7 +766,7 @@ Proof.
       assert (E12 : esteps (1 + nN) im s = Some (s2, [] ++ [])) by (eapply esteps_app; [exact E1|exact HnN]).
       exact (returned_rebase im ss s ss s2 (1 + nN)%nat ([] ++ []) ss' E12 eq_refl eq_refl (eq_sym (app_nil_r _)) Hret).
   - (* endless repeat: left only by break *)
-    intros inl inr a Ha IHa after im ss s sig ss' fuel Hload _ Hir Hd Hsim Hcode He.
+    intros inl inr a Ha IHa after im ss s sig ss' fuel Hle Hload _ Hir Hd Hsim Hcode He.
     destruct fuel as [|[|fuel]]; try discriminate. rewrite exec_infinite in He.
     rewrite c_loop_after, c_infinite, app_nil_r in *.
     pose proof (proj1 simpleB_no_routine true inr a Ha (Some 1)) as Hnrb.
@@ -781,12 +785,12 @@ Proof.
     assert (Hs1 : sim ss s1) by (destruct Hsim; constructor; cbn; assumption).
     assert (Hin1 : in_loop_ok true (Some 1)) by (intros _; exists 1; reflexivity).
     assert (Hiter : forall f ss1 sx sg ssx lv r,
-              sim ss1 sx -> m_pc sx = P0 + 1 -> m_frames sx = FLoop lv d :: r -> erase r = erase (m_frames s) -> m_stack sx = m_stack s ->
+              (f <= fuel0)%nat -> sim ss1 sx -> m_pc sx = P0 + 1 -> m_frames sx = FLoop lv d :: r -> erase r = erase (m_frames s) -> m_stack sx = m_stack s ->
               iterate rt mt f false ss1 None None None None a = ROk sg ssx ->
               (sg = SigNormal /\ exists n sy evs, esteps n im sx = Some (sy, evs) /\ sim ssx sy /\ m_pc sy = P0 + (1 + kB + 4) /\
                                            (m_stack sy, fr sy) = (m_stack s, fr s) /\ rev (s_trace ssx) = rev (s_trace ss1) ++ evs) \/
               (exists v, sg = SigReturn v /\ returned im ss1 sx ssx)).
-    { induction f as [|f IHf]; intros ss1 sx sg ssx lv r Hsx Hpcx Hfrx Herx Hstx Hit; [discriminate|].
+    { induction f as [|f IHf]; intros ss1 sx sg ssx lv r Hlef Hsx Hpcx Hfrx Herx Hstx Hit; [discriminate|].
       assert (Hctx : call_tail (m_frames sx) = call_tail (m_frames s)) by (rewrite Hfrx; cbn [call_tail]; apply call_tail_fr_eq; exact Herx).
       assert (Hdx : depth_ok (m_frames sx) (zlength (m_stack sx))).
       { rewrite Hfrx, Hstx. cbn [depth_ok]. split; [reflexivity|]. apply (depth_ok_fr_eq (m_frames s) r); [symmetry; exact Herx|exact Hd]. }
@@ -808,7 +812,7 @@ Proof.
       assert (Hst3 : m_stack s3 = m_stack s /\ m_frames s3 = FLoop lv d :: r) by (split; assumption).
       destruct Hst3 as [Hsk3 Hfk3].
       assert (E23 : esteps (1 + 1) im sx = Some (s3, [] ++ [])) by (eapply esteps_app; eassumption).
-      destruct (IHa (Some 1) im ss1 s3 sgb sb f Hload Hin1 Hirx Hdx (sim_with_pc ss1 s2 _ Hs2) HcB3 Eb)
+      destruct (IHa (Some 1) im ss1 s3 sgb sb f ltac:(lia) Hload Hin1 Hirx Hdx (sim_with_pc ss1 s2 _ Hs2) HcB3 Eb)
         as [[Hsgb (n3 & s4 & e4 & E4 & Hs4 & Hpc4 & Hst4 & Ht4)]|[[Hsgb (a' & Ha' & (n3 & s4 & e4 & E4 & Hs4 & Hpc4 & Hst4 & Ht4))]|[v [Hsgb Hret]]]]; subst sgb.
       + assert (Hfjb4 : fetch im (m_pc s4) = Some (jump JC_ALWAYS (- (1 + 1 + kB)))).
         { rewrite Hpc4. unfold s3. cbn [with_pc m_pc]. rewrite Hpc2. fold B. fold kB. exact Hfjb. }
@@ -816,7 +820,7 @@ Proof.
         set (s5 := with_pc s4 (m_pc s4 + - (1 + 1 + kB))) in *.
         destruct (loop_frame_kept s4 s3 s lv d r Hst4 Hsk3 Hfk3 Herx) as [Hsk4 (r4 & Hfk4 & Her4)].
         assert (E25 : esteps (1 + (1 + (n3 + 1))) im sx = Some (s5, [] ++ ([] ++ (e4 ++ [])))) by (eapply esteps_app; [exact Et|eapply esteps_app; [exact Ej|eapply esteps_app; [exact E4|exact Ejb]]]).
-        destruct (IHf sb s5 sg ssx lv r4 (sim_with_pc sb s4 _ Hs4)) as [[Hsg (n6 & s6 & e6 & E6 & Hs6 & Hpc6 & Hst6 & Ht6)]|[v [Hsg Hret]]].
+        destruct (IHf sb s5 sg ssx lv r4 ltac:(lia) (sim_with_pc sb s4 _ Hs4)) as [[Hsg (n6 & s6 & e6 & E6 & Hs6 & Hpc6 & Hst6 & Ht6)]|[v [Hsg Hret]]].
         { unfold s5. cbn [with_pc m_pc]. rewrite Hpc4. unfold s3. cbn [with_pc m_pc]. rewrite Hpc2. fold B. fold kB. lia. }
         { exact Hfk4. }
         { exact Her4. }
@@ -840,7 +844,7 @@ Proof.
       + (* the body returns *)
         injection Hit as Hsg Hss. subst sg ssx. right. exists v. split; [reflexivity|].
         exact (returned_rebase im ss1 sx ss1 s3 (1 + 1)%nat ([] ++ []) sb E23 eq_refl eq_refl (eq_sym (app_nil_r _)) Hret). }
-    destruct (Hiter fuel ss s1 sig ss' [] (m_frames s) Hs1 eq_refl eq_refl eq_refl eq_refl He) as [[Hsig (n & sy & evs & En & Hsy & Hpcy & Hsty & Hty)]|[v [Hsig Hret]]].
+    destruct (Hiter fuel ss s1 sig ss' [] (m_frames s) ltac:(lia) Hs1 eq_refl eq_refl eq_refl eq_refl He) as [[Hsig (n & sy & evs & En & Hsy & Hpcy & Hsty & Hty)]|[v [Hsig Hret]]].
     + left. split; [exact Hsig|]. exists (1 + n)%nat, sy, ([] ++ evs).
       split; [eapply esteps_app; [exact E1|exact En]|]. split; [exact Hsy|].
       split; [rewrite Hpcy; unfold kB, zlength; rewrite !app_length; cbn [length]; rewrite !Nat2Z.inj_add; lia|].
@@ -848,7 +852,7 @@ Proof.
     + right. right. exists v. split; [exact Hsig|].
       exact (returned_rebase im ss s ss s1 1%nat [] ss' E1 eq_refl eq_refl (eq_sym (app_nil_r _)) Hret).
   - (* loops with an index variable: repeat with v from a to b, repeat n with v from a to b, repeat n with v cycle *)
-    intros inl inr l v N a Hform Ha IHa after im ss s sig ss' fuel Hload _ Hir Hd Hsim Hcode He.
+    intros inl inr l v N a Hform Ha IHa after im ss s sig ss' fuel Hle Hload _ Hir Hd Hsim Hcode He.
     destruct Hform as (Hccode & HnrN & Hprep).
     destruct fuel as [|[|fuel]]; try discriminate.
     rewrite c_loop_after, Hccode in *.
@@ -878,13 +882,13 @@ Proof.
     clear He. rename He' into He. fold kN in Hpc2.
     assert (Hin1 : in_loop_ok true (Some (8 + 1))) by (intros _; exists (8 + 1); reflexivity).
     assert (Hiter : forall f ss1 sx sg ssx lv c0 r,
-              sim ss1 sx -> m_pc sx = P0 + 1 + kN -> m_frames sx = FLoop lv d :: r -> erase r = erase (m_frames s) ->
+              (f <= fuel0)%nat -> sim ss1 sx -> m_pc sx = P0 + 1 + kN -> m_frames sx = FLoop lv d :: r -> erase r = erase (m_frames s) ->
               lv_get lv LV_COUNTER = Some c0 -> lv_val lv LV_INCR = incr -> m_stack sx = m_stack s ->
               iterate rt mt f false ss1 None (Some c0) (Some (v, incr)) None a = ROk sg ssx ->
               (sg = SigNormal /\ exists n sy evs, esteps n im sx = Some (sy, evs) /\ sim ssx sy /\ m_pc sy = P0 + (kN + kB + 16) /\
                                            (m_stack sy, fr sy) = (m_stack s, fr s) /\ rev (s_trace ssx) = rev (s_trace ss1) ++ evs) \/
               (exists w, sg = SigReturn w /\ returned im ss1 sx ssx)).
-    { induction f as [|f IHf]; intros ss1 sx sg ssx lv c0 r Hsx Hpcx Hfrx Herx Hlvx HlvI Hstx Hit; [discriminate|].
+    { induction f as [|f IHf]; intros ss1 sx sg ssx lv c0 r Hlef Hsx Hpcx Hfrx Herx Hlvx HlvI Hstx Hit; [discriminate|].
       assert (Hctx : call_tail (m_frames sx) = call_tail (m_frames s)) by (rewrite Hfrx; cbn [call_tail]; apply call_tail_fr_eq; exact Herx).
       assert (Hdx : depth_ok (m_frames sx) (zlength (m_stack sx))).
       { rewrite Hfrx, Hstx. cbn [depth_ok]. split; [reflexivity|]. apply (depth_ok_fr_eq (m_frames s) r); [symmetry; exact Herx|exact Hd]. }
@@ -906,7 +910,7 @@ Proof.
         assert (Hst4 : m_stack s4 = m_stack s /\ m_frames s4 = FLoop lv d :: r) by (split; assumption).
         destruct Hst4 as [Hsk4 Hfk4].
         assert (E34 : esteps (4 + 1) im sx = Some (s4, [] ++ [])) by (eapply esteps_app; eassumption).
-        destruct (IHa (Some (8 + 1)) im ss1 s4 sgb sb f Hload Hin1 Hirx Hdx (sim_with_pc ss1 s3 _ Hs3) HcB4 Eb)
+        destruct (IHa (Some (8 + 1)) im ss1 s4 sgb sb f ltac:(lia) Hload Hin1 Hirx Hdx (sim_with_pc ss1 s3 _ Hs3) HcB4 Eb)
           as [[Hsgb (n5 & s5 & e5 & E5 & Hs5 & Hpc5 & Hst5 & Ht5)]|[[Hsgb (a' & Ha' & (n5 & s5 & e5 & E5 & Hs5 & Hpc5 & Hst5 & Ht5))]|[w [Hsgb Hret]]]]; subst sgb.
         + (* the body ends normally: count down, step the index variable, back to the test *)
           destruct (sub1 c0) as [c1|e] eqn:Esub; cbn [bind] in Hit; [|discriminate].
@@ -923,7 +927,7 @@ Proof.
           set (s7 := with_pc s6 (m_pc s6 + - (4 + 1 + (kB + 8)))) in *.
           assert (E37 : esteps (4 + (1 + (n5 + (8 + 1)))) im sx = Some (s7, [] ++ ([] ++ (e5 ++ ([] ++ []))))) by (eapply esteps_app; [exact Et|eapply esteps_app; [exact Ej|eapply esteps_app; [exact E5|eapply esteps_app; [exact E6|exact Ejb]]]]).
           destruct (assign_other_fields sb v nv) as (_ & _ & Htr).
-          destruct (IHf (assign sb v nv) s7 sg ssx lv6 c1 r6 (sim_with_pc _ s6 _ Hs6)) as [[Hsg (n8 & s8 & e8 & E8 & Hs8 & Hpc8 & Hst8 & Ht8)]|[w [Hsg Hret]]].
+          destruct (IHf (assign sb v nv) s7 sg ssx lv6 c1 r6 ltac:(lia) (sim_with_pc _ s6 _ Hs6)) as [[Hsg (n8 & s8 & e8 & E8 & Hs8 & Hpc8 & Hst8 & Ht8)]|[w [Hsg Hret]]].
           { unfold s7. cbn [with_pc m_pc]. rewrite Hpc6, Hpc5'. lia. }
           { exact Hfk6. }
           { rewrite Her6. exact Her5. }
@@ -961,7 +965,7 @@ Proof.
         split; [eapply esteps_app; [exact Et|eapply esteps_app; [exact Ej|exact E5]]|].
         split; [exact Hs5|]. split; [rewrite Hpc5; unfold s4; cbn [with_pc m_pc]; rewrite Hpc3; lia|].
         split; [exact Hst5|]. rewrite app_nil_r. reflexivity. }
-    destruct (Hiter fuel ssp s2 sig ss' lv2 cnt r2 Hs2) as [[Hsig (n & sy & evs & En & Hsy & Hpcy & Hsty & Hty)]|[w [Hsig Hret]]].
+    destruct (Hiter fuel ssp s2 sig ss' lv2 cnt r2 ltac:(lia) Hs2) as [[Hsig (n & sy & evs & En & Hsy & Hpcy & Hsty & Hty)]|[w [Hsig Hret]]].
     { rewrite Hpc2. unfold s1. cbn [advance with_pc with_frames with_vars m_pc]. fold P0. lia. }
     { exact Hfk2. }
     { exact Her2. }
@@ -978,11 +982,11 @@ Proof.
       apply (returned_rebase im ss s ssp s2 (1 + nN)%nat ([] ++ []) ss' E12); [|exact Hsk2|rewrite Htr0; symmetry; apply app_nil_r|exact Hret].
       rewrite Hfk2. cbn [call_tail]. apply call_tail_fr_eq. exact Her2.
   - (* empty sequence *)
-    intros inl inr after im ss s sig ss' fuel _ _ _ _ Hsim Hc He. destruct fuel as [|fuel]; [discriminate|]. rewrite exec_seq_nil in He.
+    intros inl inr after im ss s sig ss' fuel Hle _ _ _ _ Hsim Hc He. destruct fuel as [|fuel]; [discriminate|]. rewrite exec_seq_nil in He.
     injection He as Hsig He. subst ss'. left. split; [auto|]. rewrite c_block_nil. unfold zlength. cbn [length]. rewrite Z.add_0_r.
     apply sim_to_refl. exact Hsim.
   - (* sequence *)
-    intros inl inr st r Hst IHst Hr IHr after im ss s sig ss' fuel Hload Hin Hir Hd Hsim Hc He.
+    intros inl inr st r Hst IHst Hr IHr after im ss s sig ss' fuel Hle Hload Hin Hir Hd Hsim Hc He.
     destruct fuel as [|fuel]; [discriminate|]. rewrite exec_seq_cons in He. rewrite c_block_cons_after in *.
     pose proof (proj2 simpleB_no_routine inl inr r Hr after) as Hnrr. rewrite (len_no_routine _ Hnrr) in *.
     set (rest := c_stmt rt mt false after (SBlock r)) in *.
@@ -991,13 +995,13 @@ Proof.
     destruct (Sem.exec rt mt fuel false ss st) as [sg sa|e sa|sa] eqn:Est; cbn [sbind] in He; try discriminate.
     apply code_at_app in Hc. destruct Hc as [Hc1 Hc2].
     assert (Hlen : zlength (first ++ rest) = zlength first + zlength rest) by (unfold zlength; rewrite app_length, Nat2Z.inj_add; reflexivity).
-    destruct (IHst after_st im ss s sg sa fuel Hload (in_loop_ok_map inl after _ Hin) Hir Hd Hsim Hc1 Est) as [[Hsg (n1 & s1 & e1 & E1 & Hs1 & Hpc1 & Hst1 & Ht1)]|[[Hsg (a' & Ha' & Hto)]|[v [Hsg Hret]]]].
+    destruct (IHst after_st im ss s sg sa fuel ltac:(lia) Hload (in_loop_ok_map inl after _ Hin) Hir Hd Hsim Hc1 Est) as [[Hsg (n1 & s1 & e1 & E1 & Hs1 & Hpc1 & Hst1 & Ht1)]|[[Hsg (a' & Ha' & Hto)]|[v [Hsg Hret]]]].
     + subst sg.
       assert (Hc2' : code_at im (m_pc s1) rest) by (rewrite Hpc1; exact Hc2).
       destruct (fr_eq_facts s1 s Hst1) as [Hsk1 [Hct1 Hdp1]].
       assert (Hir1 : in_ret_ok inr (m_frames s1)) by (intros Hi; destruct (Hir Hi) as (ret & F & H); exists ret, F; rewrite Hct1; exact H).
       assert (Hd1 : depth_ok (m_frames s1) (zlength (m_stack s1))) by (rewrite Hsk1; apply Hdp1; exact Hd).
-      pose proof (IHr after im sa s1 sig ss' fuel Hload Hin Hir1 Hd1 Hs1 Hc2' He) as Ho.
+      pose proof (IHr after im sa s1 sig ss' fuel ltac:(lia) Hload Hin Hir1 Hd1 Hs1 Hc2' He) as Ho.
       apply (outcome_after_steps after im ss s sa s1 n1 e1 sig ss' rest); [exact E1|exact Hst1|exact Ht1| |exact Ho].
       rewrite Hpc1, Hlen. unfold first. ring.
     + subst sg. injection He as Hsig Hss. subst sig ss'.
@@ -1007,13 +1011,28 @@ Proof.
     + subst sg. injection He as Hsig Hss. subst sig ss'. right. right. exists v. split; [reflexivity|exact Hret].
 Qed.
 
+Theorem simpleB_simulation : bodies_ok ->
+  (forall inl inr st, SimpleB inl inr st ->
+     forall after im ss s sig ss' fuel, routines_loaded im -> in_loop_ok inl after -> in_ret_ok inr (m_frames s) ->
+     depth_ok (m_frames s) (zlength (m_stack s)) -> sim ss s -> code_at im (m_pc s) (c_stmt rt mt false after st) ->
+     Sem.exec rt mt fuel false ss st = ROk sig ss' -> outcome after im ss s sig ss' (c_stmt rt mt false after st)) /\
+  (forall inl inr l, SimpleBL inl inr l ->
+     forall after im ss s sig ss' fuel, routines_loaded im -> in_loop_ok inl after -> in_ret_ok inr (m_frames s) ->
+     depth_ok (m_frames s) (zlength (m_stack s)) -> sim ss s -> code_at im (m_pc s) (c_stmt rt mt false after (SBlock l)) ->
+     exec_seq rt mt fuel false ss l = ROk sig ss' -> outcome after im ss s sig ss' (c_stmt rt mt false after (SBlock l))).
+Proof.
+  intros Hbodies. split.
+  - intros inl inr st Hst after im ss s sig ss' fuel. exact (proj1 (simpleB_simulation_upto Hbodies fuel) inl inr st Hst after im ss s sig ss' fuel (le_n _)).
+  - intros inl inr l Hl after im ss s sig ss' fuel. exact (proj2 (simpleB_simulation_upto Hbodies fuel) inl inr l Hl after im ss s sig ss' fuel (le_n _)).
+Qed.
+
 
 
 End Sim3.
 
 (* where the machine stands afterwards, and that nothing is left dangling (the statement of C05 for this fragment) *)
 Theorem structured_control_leads_where_the_source_says :
-  forall rt mt inl inr st, SimpleB rt mt inl inr st ->
+  forall rt mt, bodies_ok rt mt -> forall inl inr st, SimpleB rt mt inl inr st ->
   forall after im ss s sig ss' fuel, routines_loaded rt mt im -> in_loop_ok inl after -> in_ret_ok inr (m_frames s) ->
   depth_ok (m_frames s) (zlength (m_stack s)) -> sim ss s -> code_at im (m_pc s) (c_stmt rt mt false after st) ->
   Sem.exec rt mt fuel false ss st = ROk sig ss' ->
@@ -1025,8 +1044,8 @@ Theorem structured_control_leads_where_the_source_says :
   (exists v, sig = SigReturn v /\ exists ret F n s' evs, call_tail (m_frames s) = Some (ret, F) /\ esteps n im s = Some (s', evs) /\
                                         m_pc s' = ret + 1 /\ m_frames s' = F /\ m_stack s' = m_stack s).
 Proof.
-  intros rt mt inl inr st Hst after im ss s sig ss' fuel Hload Hin Hir Hd Hsim Hc He.
-  destruct (proj1 (simpleB_simulation rt mt) inl inr st Hst after im ss s sig ss' fuel Hload Hin Hir Hd Hsim Hc He)
+  intros rt mt Hbodies inl inr st Hst after im ss s sig ss' fuel Hload Hin Hir Hd Hsim Hc He.
+  destruct (proj1 (simpleB_simulation rt mt Hbodies) inl inr st Hst after im ss s sig ss' fuel Hload Hin Hir Hd Hsim Hc He)
     as [[Hsig (n & s' & evs & E & _ & Hpc & Hsf & _)]|[[Hsig (a & Ha & n & s' & evs & E & _ & Hpc & Hsf & _)]|[v [Hsig (ret & F & Hct & n & s' & evs & E & _ & Hpc & Hfr & Hsk & _)]]]].
   - left. split; [exact Hsig|]. exists n, s', evs. split; [exact E|]. split; [exact Hpc|exact Hsf].
   - right. left. split; [exact Hsig|]. exists a, n, s', evs. split; [exact Ha|]. split; [exact E|]. split; [exact Hpc|exact Hsf].
@@ -1037,54 +1056,55 @@ Qed.
    the first value in the variable; the variable is assigned like any other variable (in the routine's own dictionary inside a
    routine); the compiled code leads where the source says *)
 Theorem indexed_loop_simulation :
-  forall rt mt (inr : bool) l v pre body, idx_form rt mt l v pre -> SimpleB rt mt true inr body ->
+  forall rt mt, bodies_ok rt mt -> forall (inr : bool) l v pre body, idx_form rt mt l v pre -> SimpleB rt mt true inr body ->
   forall after im ss s sig ss' fuel, routines_loaded rt mt im -> in_ret_ok inr (m_frames s) ->
   depth_ok (m_frames s) (zlength (m_stack s)) -> sim ss s ->
   code_at im (m_pc s) (c_stmt rt mt false after (SRepeat l body)) ->
   Sem.exec rt mt fuel false ss (SRepeat l body) = ROk sig ss' ->
   outcome after im ss s sig ss' (c_stmt rt mt false after (SRepeat l body)).
 Proof.
-  intros rt mt inr l v pre body Hform Hbody after im ss s sig ss' fuel Hload Hir Hd Hsim Hc He.
+  intros rt mt Hbodies inr l v pre body Hform Hbody after im ss s sig ss' fuel Hload Hir Hd Hsim Hc He.
   assert (Hil : in_loop_ok false after) by (intros H; discriminate).
-  exact (proj1 (simpleB_simulation rt mt) false inr _ (B_idx rt mt false inr l v pre body Hform Hbody) after im ss s sig ss' fuel Hload Hil Hir Hd Hsim Hc He).
+  exact (proj1 (simpleB_simulation rt mt Hbodies) false inr _ (B_idx rt mt false inr l v pre body Hform Hbody) after im ss s sig ss' fuel Hload Hil Hir Hd Hsim Hc He).
 Qed.
 
 (* repeat with v from a to b: the count is |b - a| + 1, the step +1 or -1 *)
 Theorem range_loop_simulation :
-  forall rt mt (inr : bool) v a b body, plain_rval mt a = true -> plain_rval mt b = true -> SimpleB rt mt true inr body ->
+  forall rt mt, bodies_ok rt mt -> forall (inr : bool) v a b body, plain_rval mt a = true -> plain_rval mt b = true -> SimpleB rt mt true inr body ->
   forall after im ss s sig ss' fuel, routines_loaded rt mt im -> in_ret_ok inr (m_frames s) ->
   depth_ok (m_frames s) (zlength (m_stack s)) -> sim ss s ->
   code_at im (m_pc s) (c_stmt rt mt false after (SRepeat (LRange v a b) body)) ->
   Sem.exec rt mt fuel false ss (SRepeat (LRange v a b) body) = ROk sig ss' ->
   outcome after im ss s sig ss' (c_stmt rt mt false after (SRepeat (LRange v a b) body)).
-Proof. intros rt mt inr v a b body Ha Hb. exact (indexed_loop_simulation rt mt inr _ _ _ body (range_idx_form rt mt v a b Ha Hb)). Qed.
+Proof. intros rt mt Hbodies inr v a b body Ha Hb. exact (indexed_loop_simulation rt mt Hbodies inr _ _ _ body (range_idx_form rt mt v a b Ha Hb)). Qed.
 
 (* repeat n with v from a to b: n values, the step (b - a) / (n - 1), or 0 when n is 1 *)
 Theorem interpolating_loop_simulation :
-  forall rt mt (inr : bool) n v a b body, plain_rval mt n = true -> plain_rval mt a = true -> plain_rval mt b = true -> SimpleB rt mt true inr body ->
+  forall rt mt, bodies_ok rt mt -> forall (inr : bool) n v a b body, plain_rval mt n = true -> plain_rval mt a = true -> plain_rval mt b = true -> SimpleB rt mt true inr body ->
   forall after im ss s sig ss' fuel, routines_loaded rt mt im -> in_ret_ok inr (m_frames s) ->
   depth_ok (m_frames s) (zlength (m_stack s)) -> sim ss s ->
   code_at im (m_pc s) (c_stmt rt mt false after (SRepeat (LCountWith n (WRange v a b)) body)) ->
   Sem.exec rt mt fuel false ss (SRepeat (LCountWith n (WRange v a b)) body) = ROk sig ss' ->
   outcome after im ss s sig ss' (c_stmt rt mt false after (SRepeat (LCountWith n (WRange v a b)) body)).
-Proof. intros rt mt inr n v a b body Hn Ha Hb. exact (indexed_loop_simulation rt mt inr _ _ _ body (cw_range_idx_form rt mt n v a b Hn Ha Hb)). Qed.
+Proof. intros rt mt Hbodies inr n v a b body Hn Ha Hb. exact (indexed_loop_simulation rt mt Hbodies inr _ _ _ body (cw_range_idx_form rt mt n v a b Hn Ha Hb)). Qed.
 
 (* repeat n with v cycle [start]: n values, the step a full turn (360, or 65536 in raw units) / n, from start or 0 *)
 Theorem cycle_loop_simulation :
-  forall rt mt (inr : bool) n v start body, plain_rval mt n = true -> plain_opt mt start = true -> SimpleB rt mt true inr body ->
+  forall rt mt, bodies_ok rt mt -> forall (inr : bool) n v start body, plain_rval mt n = true -> plain_opt mt start = true -> SimpleB rt mt true inr body ->
   forall after im ss s sig ss' fuel, routines_loaded rt mt im -> in_ret_ok inr (m_frames s) ->
   depth_ok (m_frames s) (zlength (m_stack s)) -> sim ss s ->
   code_at im (m_pc s) (c_stmt rt mt false after (SRepeat (LCountWith n (WCycle v start)) body)) ->
   Sem.exec rt mt fuel false ss (SRepeat (LCountWith n (WCycle v start)) body) = ROk sig ss' ->
   outcome after im ss s sig ss' (c_stmt rt mt false after (SRepeat (LCountWith n (WCycle v start)) body)).
-Proof. intros rt mt inr n v start body Hn Ha. exact (indexed_loop_simulation rt mt inr _ _ _ body (cw_cycle_idx_form rt mt n v start Hn Ha)). Qed.
+Proof. intros rt mt Hbodies inr n v start body Hn Ha. exact (indexed_loop_simulation rt mt Hbodies inr _ _ _ body (cw_cycle_idx_form rt mt n v start Hn Ha)). Qed.
 
 (* a call: the arguments are evaluated in the caller's scope, the body runs with the parameters as its own variables (by
    value: assigning to one changes the routine's dictionary only), and afterwards the machine is behind the call with the
-   caller's stack and frames as they were (C03) *)
+   caller's stack and frames as they were (C03); the routine may call other routines and itself, to any depth the reference
+   run reaches *)
 Theorem call_simulation :
-  forall rt mt (inl inr : bool) f args b d, builtin_params f builtin_table = None -> find_rdef rt f = Some d ->
-  plain_args mt args (rd_params d) = true -> SimpleB rt mt false true (rd_body d) ->
+  forall rt mt, bodies_ok rt mt -> forall f args b d, builtin_params f builtin_table = None -> find_rdef rt f = Some d ->
+  plain_args mt args (rd_params d) = true ->
   forall after im ss s sig ss' fuel, routines_loaded rt mt im -> depth_ok (m_frames s) (zlength (m_stack s)) -> sim ss s ->
   code_at im (m_pc s) (c_stmt rt mt false after (SCall f args b)) ->
   Sem.exec rt mt fuel false ss (SCall f args b) = ROk sig ss' ->
@@ -1092,14 +1112,14 @@ Theorem call_simulation :
   exists n s' evs, esteps n im s = Some (s', evs) /\ sim ss' s' /\ m_pc s' = m_pc s + zlength (c_stmt rt mt false after (SCall f args b)) /\
                    (m_stack s', fr s') = (m_stack s, fr s) /\ rev (s_trace ss') = rev (s_trace ss) ++ evs.
 Proof.
-  intros rt mt inl inr f args b d Hb Hf Hpl Hbody after im ss s sig ss' fuel Hload Hd Hsim Hc He.
+  intros rt mt Hbodies f args b d Hb Hf Hpl after im ss s sig ss' fuel Hload Hd Hsim Hc He.
   assert (Hsig : sig = SigNormal).
   { destruct fuel as [|fuel]; [discriminate|]. rewrite exec_call in He.
     destruct (call rt mt fuel false ss f args) as [v s1|e s1|s1]; cbn [sbind] in He; try discriminate. injection He as <- _. reflexivity. }
   subst sig. split; [reflexivity|].
   assert (Hir : in_ret_ok false (m_frames s)) by (intros H; discriminate).
   assert (Hin : in_loop_ok false after) by (intros H; discriminate).
-  destruct (proj1 (simpleB_simulation rt mt) false false (SCall f args b) (B_call rt mt false false f args b d Hb Hf Hpl Hbody) after im ss s SigNormal ss' fuel Hload
+  destruct (proj1 (simpleB_simulation rt mt Hbodies) false false (SCall f args b) (B_call rt mt false false f args b d Hb Hf Hpl) after im ss s SigNormal ss' fuel Hload
               Hin Hir Hd Hsim Hc He) as [[_ Hto]|[[H _]|[v [H _]]]]; try discriminate.
   exact Hto.
 Qed.
@@ -1119,7 +1139,7 @@ Fixpoint simpleB_b (fuel : nat) (inl inr : bool) (st : stmt) : bool :=
       | SReturn None => inr
       | SCall g args _ =>
           match builtin_params g builtin_table, find_rdef rt g with
-          | None, Some d => plain_args mt args (rd_params d) && simpleB_b f false true (rd_body d)
+          | None, Some d => plain_args mt args (rd_params d)
           | _, _ => false
           end
       | SIf c a None => plain_rval mt c && simpleB_b f inl inr a
@@ -1142,7 +1162,7 @@ Proof.
   destruct st; try discriminate.
   - (* call *)
     destruct (builtin_params f0 builtin_table) eqn:Eb; [discriminate|]. destruct (find_rdef rt f0) as [d|] eqn:Ef; [|discriminate].
-    apply andb_true_iff in H. destruct H as [Hp Hb]. apply (B_call rt mt inl inr f0 args bracketed d Eb Ef Hp). apply IH. exact Hb.
+    exact (B_call rt mt inl inr f0 args bracketed d Eb Ef H).
   - (* return *)
     destruct v as [v|].
     + apply andb_true_iff in H. destruct H as [Hr Hv]. subst inr. apply B_return. exact Hv.
@@ -1165,5 +1185,18 @@ Proof.
   - subst inl. apply B_break.
   - apply B_block. clear Ea. induction ss as [|x r IHr]; [constructor|]. cbn [forallb] in H. apply andb_true_iff in H. destruct H as [Hx Hr].
     constructor; [apply IH; exact Hx|apply IHr; exact Hr].
+Qed.
+
+(* the body of every routine of the table is covered *)
+Definition bodies_b (fuel : nat) : bool := forallb (fun fd => simpleB_b fuel false true (rd_body (snd fd))) rt.
+Lemma find_rdef_in f : forall (t : rtable) d, find_rdef t f = Some d -> In (f, d) t.
+Proof.
+  induction t as [|[g e] t IH]; intros d H; [discriminate|]. cbn [find_rdef] in H.
+  destruct (String.eqb g f) eqn:E; [apply String.eqb_eq in E; subst g; injection H as H; subst e; left; reflexivity|right; apply IH; exact H].
+Qed.
+Lemma bodies_b_sound fuel : bodies_b fuel = true -> bodies_ok rt mt.
+Proof.
+  intros H f d Hf. pose proof (proj1 (forallb_forall _ _) H (f, d) (find_rdef_in f rt d Hf)) as Hb. cbn [snd] in Hb.
+  exact (simpleB_b_sound fuel false true (rd_body d) Hb).
 Qed.
 End CheckB.
